@@ -37,6 +37,7 @@ FAMILIES['C04'] = [
     fam('lonely-interrupt', ['HOLD HOLDZ', 'INTR0'], PRIOSYM=1),
     fam('holdz-chain', ['HOLDZ TADD HOLDZ HOLD', 'HOLDZ INTR0']),
     fam('waitp-timeout-then-hold', ['TADD WAITP1 HOLD', 'HOLD HOLD'], w=3),
+    fam('waitp-timeout-awaited-scheduled-first', ['HOLD', 'TADD WAITP0 HOLD HOLD'], w=3),   # the awaited process's end is queued before the waiter's timer: end, timeout, end-notice in one instant
     fam('waitp-stopped', ['WAITP1 HOLD', 'HOLD HOLD', 'HOLD STOP1'], w=3),
     fam('waitp-both-ends', ['TADD WAITP1 HOLD', 'HOLD', 'WAITP1 HOLD INTR0'], w=4),
     fam('waite-timeout-then-hold', ['TADD WAITE HOLD', 'HOLD'], w=3),
@@ -119,6 +120,7 @@ FAMILIES['C08'] = [
     fam('pool-rollback-topup-waiter', ['PACQ HOLD PACQ YIELD', 'PACQ YIELD', 'HOLD HOLD INTR0', 'HOLD PACQ YIELD'], POOLCAP=4, w=14),
     fam('pool-rollback-first-waiter', ['PACQ YIELD', 'HOLD PACQ YIELD', 'HOLD HOLD INTR1', 'HOLD HOLD PACQ YIELD'], POOLCAP=3, w=10),
     fam('pool-leftovers', ['PACQ HOLD PRELALL', 'HOLD PACQ HOLD PRELALL', 'HOLD PACQ HOLD PRELALL'], POOLCAP=3, w=6),
+    fam('pool-leftovers-after-topup', ['PACQ HOLD PREL HOLD PREL', 'HOLD PACQ HOLD', 'HOLD PACQ HOLD'], POOLCAP=4, DUR0='{3,2}', DUR1='{1,9}', DUR2='{2,1}', w=2),    # a waiter that tops up its partial grab must pass on what is left
     fam('pool-drop-on-stop', ['PACQ HOLD', 'PACQ HOLD PRELALL', 'HOLD STOP0', 'TADD PACQ'], w=6),
     fam('buffer-chain', ['BPUT HOLD BPUT', 'TADD BGET BGET'], BUFCAP=2, w=10),
     fam('buffer-chain-3', ['BPUT HOLD BPUT', 'TADD BGET HOLD', 'BGET'], tier='thorough', BUFCAP=2, w=60),
@@ -129,6 +131,8 @@ FAMILIES['C08'] = [
     fam('pool-granted-waiter-stopped', ['PACQ HOLD PRELALL', 'PACQ YIELD', 'PACQ YIELD', 'HOLD STOP1'], POOLCAP=1, w=4),
     fam('buffer-granted-getter-stopped', ['HOLD BPUT', 'BGET', 'BGET', 'HOLD STOP1'], BUFCAP=2, w=6),
     fam('pq-cancel-wakes-putter', ['QPUT QPUT HOLD', 'HOLD QCANCEL', 'HOLD QPUT QGET'], QCAP=1, w=3),
+    fam('pq-two-cancels-two-putters', ['QPUT QPUT HOLD QCANCEL QCANCEL', 'QPUT', 'QPUT'], QCAP=2, w=4),      # two removals in one instant, two blocked putters
+    fam('pq-get-and-cancel-two-putters', ['QPUT QPUT HOLD QGET QCANCEL', 'QPUT', 'QPUT'], QCAP=2, w=4),
     fam('pq-both-ends', ['QPUT QPUT QPUT HOLD', 'HOLD QGET QGET', 'TADD QGET QCANCEL'], QCAP=2, w=4),
     fam('resource-4-coincidences', ['ACQ HOLD REL', 'TADD ACQ HOLD REL', 'TADD ACQ HOLD REL', 'ACQ REL'], tier='thorough', PRIOSYM=1, w=60),
     fam('buffer-full-range', ['BPUT HOLD BPUT', 'TADD BGET'], tier='thorough', BUFCAP=0, BAMT_FULL=1, w=60),
@@ -228,3 +232,13 @@ FAMILIES['C14'] = [
     fam('rec-same-instant', ['ACQ REL ACQ REL PACQ PRELALL', 'HOLDZ OPUT OGET QPUT QGET'], REC=1, CONCRETE_D=1, w=2),
     fam('rec-everything', ['ACQ PACQ HOLD REL PREL HOLD', 'HOLD PPRE ACQ HOLD', 'OPUT QPUT BPUT HOLD OGET QGET BGET', 'HOLD STOP0'], tier='thorough', REC=1, CONCRETE_D=1, PRIOS='{0,1,0,0}', w=60),
 ]
+
+# C13 with many waiters (own harness: the waiting list is a heap, removals in the middle move entries between subtrees)
+def _mc(name, tier='quick', w=2, witness=False, **kw):
+    defs = ['%s=%s' % (k, v) for k, v in kw.items()] + (['WITNESS=1'] if witness else [])
+    return Family(name + ('-witness' if witness else ''), 'h_c13m.c', 'h_manycond', defs, opts={'max_viol': 400, 'time_limit': 420 if tier == 'quick' else 2400},
+                  tier=tier, witness=witness, weight=w, validate=3)
+FAMILIES['C13'] += [_mc('manycond-6-staggered', NW=6, STAGGER=1), _mc('manycond-7-staggered', NW=7, STAGGER=1, w=3), _mc('manycond-9-staggered', NW=9, STAGGER=1, w=8),
+                    _mc('manycond-6-staggered-zigzag', NW=6, STAGGER=1, PRIOSET='{5,9,1,8,2,7,3,6,4}'), _mc('manycond-6', NW=6), _mc('manycond-6', NW=6, witness=True), _mc('manycond-7', NW=7, PRIOSET='{1,2,3,4,5,6,7,8,9}', w=3),
+                    _mc('manycond-7-descending', NW=7, PRIOSET='{9,8,7,6,5,4,3,2,1}', w=3), _mc('manycond-9', NW=9, w=8),
+                    _mc('manycond-4-symprio', NW=4, PRIOSYM=1, w=10), _mc('manycond-5-symprio', tier='thorough', NW=5, PRIOSYM=1, w=60)]
